@@ -116,6 +116,16 @@ class World:
                 def f():
                     i = s.add("@media print { %s }" % text)
                     return s.cssRules[i].cssRules[0]
+            elif a["how"] == "mediatext":
+                # the nested rule is parsed while its @media rule already belongs to the sheet
+                def f():
+                    i = s.add("@media print { }")
+                    try:
+                        s.cssRules[i].cssText = "@media print { %s }" % text
+                    except Exception:
+                        s.deleteRule(i)
+                        raise
+                    return s.cssRules[i].cssRules[0]
             else:
                 def f():
                     r = css.CSSStyleRule(selectorText=(FORM_TEXT[a["form"]], dict(s.namespaces.items())), style="left: 0")
@@ -189,3 +199,27 @@ def run_parse_row(item):
     cssutils.log.raiseExceptions = True
     o["out"] = out
     return {"id": rid, "item": r, "init": {"x": 0}, "steps": [{"a": r, "out": "ok", "post": o}]}
+
+
+def run_dupes_row(item):
+    """one URI declared three times in one text: the last declaration wins, one prefix per URI"""
+    init()
+    r = dict(item)
+    rid = r.pop("id")
+    decl = {"a": '@namespace a "u";', "b": '@namespace b "u";', "c": '@namespace c "u";', "d": '@namespace d "v";'}
+    text = "\n".join(decl[x] for x in r["order"]) + "\nc|e, d|e { left: 0 }" if r["order"][-1] != "b" else "\n".join(decl[x] for x in r["order"]) + "\nd|e { left: 0 }"
+    o = {"out": "ok", "mapping": [], "nsrules": [], "text": text}
+
+    def f():
+        sheet = cssutils.parseString(text)
+        cssutils.log.raiseExceptions = True
+        o["mapping"] = mapping_of(sheet)
+        o["nsrules"] = ns_pairs(sheet)
+    out, _ = outcome(f)
+    cssutils.log.raiseExceptions = True
+    o["out"] = out
+    return {"id": rid, "item": r, "init": {"x": 0}, "steps": [{"a": r, "out": "ok", "post": o}]}
+
+
+def run_table_row(item):
+    return run_dupes_row(item) if item.get("kind") == "nsdupes" else run_parse_row(item)
